@@ -1,62 +1,8 @@
 /- Every guarded step of the concrete protocol acts on the abstract configuration of every HTLC id by
    one of the abstract moves (or leaves it unchanged); hence every HTLC of every reachable state has a
    `good` configuration. Core only. -/
-import LdkModel.Proofs.Channel.Nodes
+import LdkModel.Proofs.Channel.Streams
 namespace Ldk.Chan
-
-/-! ### basic directional invariant: id discipline of `a`, and `needRaaA` is coverable -/
-
-structure Base (s : Sys) : Prop where
-  ok : NodeOK s.a
-  need : s.pendA ≠ [] → s.needRaaA ≤ s.a.raaSent + s.a.owesRaa
-
-theorem NodeOK.congr {n n' : Node} (ok : NodeOK n) (h1 : n'.inb = n.inb) (h2 : n'.outb = n.outb)
-    (h3 : n'.nextInId = n.nextInId) (h4 : n'.nextOutId = n.nextOutId) : NodeOK n' :=
-  ⟨h1 ▸ ok.sIn, h2 ▸ ok.sOut, by rw [h1, h3]; exact ok.bIn, by rw [h2, h4]; exact ok.bOut⟩
-
-theorem Base.init (va vb : Nat) : Base (Sys.init va vb) :=
-  ⟨NodeOK.init va, by intro h; exact absurd rfl h⟩
-
-theorem Base.step {s s' : Sys} {e : Ev} (hb : Base s) (h : stepG s e = some s') : Base s' := by
-  obtain ⟨hk, h⟩ := stepG_some h
-  cases e with
-  | commit x adds fu fa =>
-    cases x
-    · obtain ⟨_, n, ms, _, e⟩ := step_commit_false h
-      subst e; exact ⟨hb.ok, hb.need⟩
-    · obtain ⟨_, n, ms, hc, e⟩ := step_commit_true h
-      obtain ⟨_, _, en, _⟩ := commit_some hc
-      subst e; subst en
-      exact ⟨(hb.ok.built adds fu fa).congr rfl rfl rfl rfl, fun _ => Nat.le_refl _⟩
-  | release x =>
-    cases x
-    · obtain ⟨_, _, e⟩ := step_release_false h
-      subst e; exact ⟨hb.ok, hb.need⟩
-    · obtain ⟨_, _, e⟩ := step_release_true h
-      subst e; exact ⟨hb.ok, fun hp => absurd rfl hp⟩
-  | sendRaa x =>
-    cases x
-    · obtain ⟨_, e⟩ := step_sendRaa_false h
-      subst e; exact ⟨hb.ok, hb.need⟩
-    · obtain ⟨ho, e⟩ := step_sendRaa_true h
-      subst e
-      refine ⟨hb.ok.congr rfl rfl rfl rfl, ?_⟩
-      intro hp
-      have := hb.need hp
-      show s.needRaaA ≤ s.a.raaSent + 1 + (s.a.owesRaa - 1)
-      omega
-  | recv y =>
-    cases y
-    · obtain ⟨m, rest, n, ok, _, _, e⟩ := step_recv_false h
-      subst e; exact ⟨hb.ok, hb.need⟩
-    · obtain ⟨m, rest, n, ok, _, hm, e⟩ := step_recv_true h
-      subst e
-      refine ⟨hb.ok.onMsg hm, ?_⟩
-      intro hp
-      have := hb.need hp
-      obtain ⟨e1, e2⟩ := onMsg_sent_owes hm
-      show s.needRaaA ≤ n.raaSent + n.owesRaa
-      rw [e1, e2]; omega
 
 /-! ### the abstract configuration of HTLC `id` offered by `a` -/
 
@@ -171,17 +117,11 @@ theorem good_of_moved {c c' : Cfg} (hc : good c = true) (hm : Moved c c') : good
 
 theorem cfgA_commit_true {s s' : Sys} {adds fu fa : List Nat} (hb : Base s)
     (h : step s (.commit true adds fu fa) = some s') (id : Nat) : Moved (cfgA s id) (cfgA s' id) := by
-  obtain ⟨hp, n, ms, hc, e⟩ := step_commit_true h
+  have hfwd := fullAB_commit_true h
+  obtain ⟨_, hp, n, ms, hc, e⟩ := step_commit_true h
   obtain ⟨haw, _, en, ems⟩ := commit_some hc
   subst e; subst en; subst ems
   right
-  have hfwd : ({ s with a := ({ s.a.built adds fu fa with awaitingRaa := true, csSent := s.a.csSent + 1 } : Node),
-                        pendA := batchOf s.a adds fu fa, needRaaA := s.a.raaSent + s.a.owesRaa } : Sys).fullAB
-      = s.fullAB ++ batchOf s.a adds fu fa := by
-    show full s.qab (batchOf s.a adds fu fa) (s.a.raaSent + s.a.owesRaa) s.a.raaSent s.a.owesRaa = _
-    rw [full_commit _ _ (batchOf_ne_nil _ _ _ _)]
-    unfold Sys.fullAB
-    rw [hp, full_nil_pend, full_nil_pend]
   by_cases hnew : s.a.nextOutId ≤ id ∧ id < s.a.nextOutId + adds.length
   · refine ⟨mCommitO true, by simp [moves], ?_⟩
     have ho : stOut s.a.outb id = none := stOut_none_of_bound hb.ok.bOut hnew.1
@@ -201,17 +141,12 @@ theorem cfgA_commit_true {s s' : Sys} {adds fu fa : List Nat} (hb : Base s)
 
 theorem cfgA_commit_false {s s' : Sys} {adds fu fa : List Nat} (hb : Base s.swap) (hn : (fu ++ fa).Nodup)
     (h : step s (.commit false adds fu fa) = some s') (id : Nat) : Moved (cfgA s id) (cfgA s' id) := by
-  obtain ⟨hp, n, ms, hc, e⟩ := step_commit_false h
+  have hbwd : s'.fullBA = s.fullBA ++ batchOf s.b adds fu fa :=
+    fullAB_commit_true (s := s.swap) (s' := s'.swap) (by have := step_swap s (.commit false adds fu fa); rw [h] at this; exact this)
+  obtain ⟨_, hp, n, ms, hc, e⟩ := step_commit_false h
   obtain ⟨haw, hcom, en, ems⟩ := commit_some hc
   subst e; subst en; subst ems
   right
-  have hbwd : ({ s with b := ({ s.b.built adds fu fa with awaitingRaa := true, csSent := s.b.csSent + 1 } : Node),
-                        pendB := batchOf s.b adds fu fa, needRaaB := s.b.raaSent + s.b.owesRaa } : Sys).fullBA
-      = s.fullBA ++ batchOf s.b adds fu fa := by
-    show full s.qba (batchOf s.b adds fu fa) (s.b.raaSent + s.b.owesRaa) s.b.raaSent s.b.owesRaa = _
-    rw [full_commit _ _ (batchOf_ne_nil _ _ _ _)]
-    unfold Sys.fullBA
-    rw [hp, full_nil_pend, full_nil_pend]
   have hcom' : id ∈ fu ++ fa → stIn s.b.inb id = some .committed := by
     intro hid
     obtain ⟨x, hx, e1, e2⟩ := hcom id hid
@@ -251,257 +186,749 @@ theorem Cfg.ext' {c c' : Cfg} (h1 : c.o = c'.o) (h2 : c.i = c'.i) (h3 : c.fwd = 
   cases c; cases c'; simp_all
 
 theorem cfgA_release_true {s s' : Sys} (h : step s (.release true) = some s') (id : Nat) : cfgA s' id = cfgA s id := by
-  obtain ⟨_, hlt, e⟩ := step_release_true h
+  have hf := fullAB_release_true h
+  obtain ⟨_, _, hlt, e⟩ := step_release_true h
   subst e
-  have hf : ({ s with qab := s.qab ++ s.pendA, pendA := [] } : Sys).fullAB = s.fullAB := full_release _ _ _ _ _ hlt
   exact Cfg.ext' rfl rfl (by show List.filterMap _ _ = List.filterMap _ _; rw [hf]) rfl rfl rfl
 
 theorem cfgA_release_false {s s' : Sys} (h : step s (.release false) = some s') (id : Nat) : cfgA s' id = cfgA s id := by
-  obtain ⟨_, hlt, e⟩ := step_release_false h
+  have hf : s'.fullBA = s.fullBA :=
+    fullAB_release_true (s := s.swap) (s' := s'.swap) (by have := step_swap s (.release false); rw [h] at this; exact this)
+  obtain ⟨_, _, hlt, e⟩ := step_release_false h
   subst e
-  have hf : ({ s with qba := s.qba ++ s.pendB, pendB := [] } : Sys).fullBA = s.fullBA := full_release _ _ _ _ _ hlt
   exact Cfg.ext' rfl rfl rfl (by show List.filterMap _ _ = List.filterMap _ _; rw [hf]) rfl rfl
 
 theorem cfgA_sendRaa_true {s s' : Sys} (hb : Base s) (hk : evOk s (.sendRaa true) = true)
     (h : step s (.sendRaa true) = some s') (id : Nat) : cfgA s' id = cfgA s id := by
-  obtain ⟨ho, e⟩ := step_sendRaa_true h
+  have hf := fullAB_sendRaa_true hb hk h
+  obtain ⟨_, ho, e⟩ := step_sendRaa_true h
   subst e
-  have hg : s.pendA = [] ∨ s.a.raaSent < s.needRaaA := by simpa [evOk] using hk
-  have hf : ({ s with a := { s.a with owesRaa := s.a.owesRaa - 1, raaSent := s.a.raaSent + 1 }, qab := s.qab ++ [Msg.raa] } : Sys).fullAB
-      = s.fullAB := full_sendRaa _ _ _ _ _ ho hg hb.need
   exact Cfg.ext' rfl rfl (by show List.filterMap _ _ = List.filterMap _ _; rw [hf]) rfl rfl rfl
 
 theorem cfgA_sendRaa_false {s s' : Sys} (hb : Base s.swap) (hk : evOk s (.sendRaa false) = true)
     (h : step s (.sendRaa false) = some s') (id : Nat) : cfgA s' id = cfgA s id := by
-  obtain ⟨ho, e⟩ := step_sendRaa_false h
+  have hf : s'.fullBA = s.fullBA :=
+    fullAB_sendRaa_true (s := s.swap) (s' := s'.swap) hb (by rw [← evOk_swap] at hk; exact hk)
+      (by have := step_swap s (.sendRaa false); rw [h] at this; exact this)
+  obtain ⟨_, ho, e⟩ := step_sendRaa_false h
   subst e
-  have hg : s.pendB = [] ∨ s.b.raaSent < s.needRaaB := by simpa [evOk] using hk
-  have hf : ({ s with b := { s.b with owesRaa := s.b.owesRaa - 1, raaSent := s.b.raaSent + 1 }, qba := s.qba ++ [Msg.raa] } : Sys).fullBA
-      = s.fullBA := full_sendRaa _ _ _ _ _ ho hg hb.need
   exact Cfg.ext' rfl rfl rfl (by show List.filterMap _ _ = List.filterMap _ _; rw [hf]) rfl rfl
 
-/-- `a` processes the head of the b→a stream -/
-theorem cfgA_recv_true {s s' : Sys} (hb : Base s) (h : step s (.recv true) = some s') (id : Nat) :
-    Moved (cfgA s id) (cfgA s' id) := by
-  obtain ⟨m, rest, n, okb, hq, hm, e⟩ := step_recv_true h
-  subst e
-  have hpop : s.fullBA = m :: ({ s with a := n, qba := rest, agreed := s.agreed && okb } : Sys).fullBA := by
-    show full s.qba s.pendB s.needRaaB s.b.raaSent s.b.owesRaa = m :: full rest s.pendB s.needRaaB s.b.raaSent s.b.owesRaa
-    rw [hq, full_pop]
-  obtain ⟨e1, e2⟩ := onMsg_sent_owes hm
+/-- `a` processes the head `m` of the b→a stream: either `m` does not concern this HTLC and nothing changes,
+    or its token is at the head of `bwd` and the offerer-side receive move applies -/
+theorem cfgA_recv_true_precise {s s' : Sys} (hb : Base s) (hb' : Base s.swap) (h : step s (.recv true) = some s')
+    (id : Nat) : ∃ m rest, s.qba = m :: rest ∧
+      ((tokB id m = none ∧ cfgA s' id = cfgA s id) ∨
+       (∃ t, tokB id m = some t ∧ (cfgA s id).bwd.head? = some t ∧ mRecvO (cfgA s id) = some (cfgA s' id))) := by
+  obtain ⟨hpa, m, rest, n, okb, hq, hm, e⟩ := step_recv_true h
+  refine ⟨m, rest, hq, ?_⟩
+  have hpop : s.fullBA = m :: s'.fullBA := by rw [e]; exact fullBA_pop_recv_true hb' hq n _
+  have hfw : s'.fullAB = s.fullAB ++ owedFor m := by rw [e]; exact fullAB_after_recv_true hb hpa _ hm
+  have hsa : s'.a = n := by rw [e]
+  have hsb : s'.b = s.b := by rw [e]
+  have ci : (cfgA s' id).i = (cfgA s id).i := by show stIn s'.b.inb id = _; rw [hsb]; rfl
+  have cawI : (cfgA s' id).awI = (cfgA s id).awI := by show s'.b.awaitingRaa = _; rw [hsb]; rfl
+  have cfwd : (cfgA s' id).fwd = (cfgA s id).fwd ++ (owedFor m).filterMap (tokF id) := by
+    show List.filterMap _ s'.fullAB = _
+    rw [hfw, List.filterMap_append]; rfl
+  have cbwd : (cfgA s id).bwd = (match tokB id m with | some t => [t] | none => []) ++ (cfgA s' id).bwd := by
+    show List.filterMap _ s.fullBA = _
+    rw [hpop, List.filterMap_cons]
+    cases tokB id m <;> rfl
+  have co : (cfgA s' id).o = stOut n.outb id := by show stOut s'.a.outb id = _; rw [hsa]
+  have cawO : (cfgA s' id).awO = n.awaitingRaa := by show s'.a.awaitingRaa = _; rw [hsa]
   cases m with
   | add id' amt =>
     obtain ⟨_, _, en⟩ := onMsg_add hm
-    subst en
     left
-    refine Cfg.ext' rfl rfl rfl ?_ rfl rfl
-    show List.filterMap _ _ = List.filterMap (tokB id) s.fullBA
-    rw [hpop]; rfl
+    refine ⟨rfl, Cfg.ext' (by rw [co, en]; rfl) ci (by rw [cfwd]; simp [owedFor]) (by rw [cbwd]; rfl) (by rw [cawO, en]; rfl) cawI⟩
   | fulfill id' =>
     obtain ⟨⟨x, hx, hxid, hxst⟩, _, en⟩ := onMsg_fulfill hm
-    subst en
+    have ho' : stOut n.outb id = if id = id' then (stOut s.a.outb id).map (fun _ => .remoteRemoved true) else stOut s.a.outb id := by
+      rw [en]; exact stOut_setOut s.a.outb id' (fun _ => _) id
     by_cases hid : id' = id
     · subst hid
       right
-      refine ⟨mRecvO, by simp [moves], ?_⟩
       have ho : stOut s.a.outb id' = some .committed := by
         have := stOut_of_mem hb.ok.sOut hx; rw [hxid, hxst] at this; exact this
-      have hbw : (cfgA s id').bwd = .rem true :: List.filterMap (tokB id') ({ s with a := { s.a with outb := setOut s.a.outb id' (fun _ => .remoteRemoved true) }, qba := rest, agreed := s.agreed && okb } : Sys).fullBA := by
-        show List.filterMap _ s.fullBA = _
-        rw [hpop]; simp [tokB]
+      have ht : tokB id' (Msg.fulfill id') = some (.rem true) := by simp [tokB]
+      rw [ht] at cbwd
+      refine ⟨_, ht, by rw [cbwd]; rfl, ?_⟩
       unfold mRecvO
-      rw [hbw]
-      simp only [show (cfgA s id').o = some .committed from ho, if_true, Option.some.injEq]
-      refine Cfg.ext' ?_ rfl rfl rfl rfl rfl
-      simp only [cfgA, stOut_setOut, if_true, ho, Option.map_some]
+      rw [cbwd]
+      simp only [List.singleton_append, show (cfgA s id').o = some .committed from ho, if_true, Option.some.injEq]
+      refine Cfg.ext' (by rw [co, ho', if_pos rfl, ho]; rfl) ci.symm (by rw [cfwd]; simp [owedFor]) rfl (by rw [cawO, en]; rfl) cawI.symm
     · left
-      refine Cfg.ext' ?_ rfl rfl ?_ rfl rfl
-      · simp only [cfgA, stOut_setOut, if_neg (fun h : id = id' => hid h.symm)]
-      · show List.filterMap _ _ = List.filterMap (tokB id) s.fullBA
-        rw [hpop]; simp [tokB, hid]
+      have ht : tokB id (Msg.fulfill id') = none := by simp [tokB, hid]
+      rw [ht] at cbwd
+      exact ⟨ht, Cfg.ext' (by rw [co, ho', if_neg (fun h => hid h.symm)]; rfl) ci (by rw [cfwd]; simp [owedFor]) (by rw [cbwd]; rfl)
+        (by rw [cawO, en]; rfl) cawI⟩
   | fail id' =>
     obtain ⟨⟨x, hx, hxid, hxst⟩, _, en⟩ := onMsg_fail hm
-    subst en
+    have ho' : stOut n.outb id = if id = id' then (stOut s.a.outb id).map (fun _ => .remoteRemoved false) else stOut s.a.outb id := by
+      rw [en]; exact stOut_setOut s.a.outb id' (fun _ => _) id
     by_cases hid : id' = id
     · subst hid
       right
-      refine ⟨mRecvO, by simp [moves], ?_⟩
       have ho : stOut s.a.outb id' = some .committed := by
         have := stOut_of_mem hb.ok.sOut hx; rw [hxid, hxst] at this; exact this
-      have hbw : (cfgA s id').bwd = .rem false :: List.filterMap (tokB id') ({ s with a := { s.a with outb := setOut s.a.outb id' (fun _ => .remoteRemoved false) }, qba := rest, agreed := s.agreed && okb } : Sys).fullBA := by
-        show List.filterMap _ s.fullBA = _
-        rw [hpop]; simp [tokB]
+      have ht : tokB id' (Msg.fail id') = some (.rem false) := by simp [tokB]
+      rw [ht] at cbwd
+      refine ⟨_, ht, by rw [cbwd]; rfl, ?_⟩
       unfold mRecvO
-      rw [hbw]
-      simp only [show (cfgA s id').o = some .committed from ho, if_true, Option.some.injEq]
-      refine Cfg.ext' ?_ rfl rfl rfl rfl rfl
-      simp only [cfgA, stOut_setOut, if_true, ho, Option.map_some]
+      rw [cbwd]
+      simp only [List.singleton_append, show (cfgA s id').o = some .committed from ho, if_true, Option.some.injEq]
+      refine Cfg.ext' (by rw [co, ho', if_pos rfl, ho]; rfl) ci.symm (by rw [cfwd]; simp [owedFor]) rfl (by rw [cawO, en]; rfl) cawI.symm
     · left
-      refine Cfg.ext' ?_ rfl rfl ?_ rfl rfl
-      · simp only [cfgA, stOut_setOut, if_neg (fun h : id = id' => hid h.symm)]
-      · show List.filterMap _ _ = List.filterMap (tokB id) s.fullBA
-        rw [hpop]; simp [tokB, hid]
+      have ht : tokB id (Msg.fail id') = none := by simp [tokB, hid]
+      rw [ht] at cbwd
+      exact ⟨ht, Cfg.ext' (by rw [co, ho', if_neg (fun h => hid h.symm)]; rfl) ci (by rw [cfwd]; simp [owedFor]) (by rw [cbwd]; rfl)
+        (by rw [cawO, en]; rfl) cawI⟩
   | cs c =>
     obtain ⟨en, _⟩ := onMsg_cs hm
-    subst en
     right
-    refine ⟨mRecvO, by simp [moves], ?_⟩
-    have hbw : (cfgA s id).bwd = .cs :: List.filterMap (tokB id) ({ s with a := s.a.afterCs, qba := rest, agreed := s.agreed && okb } : Sys).fullBA := by
-      show List.filterMap _ s.fullBA = _
-      rw [hpop]; simp [tokB]
-    have hfw : ({ s with a := s.a.afterCs, qba := rest, agreed := s.agreed && okb } : Sys).fullAB = s.fullAB ++ [Msg.raa] :=
-      full_owe _ _ _ _ _ hb.need
+    have ht : tokB id (Msg.cs c) = some .cs := rfl
+    rw [ht] at cbwd
+    refine ⟨_, ht, by rw [cbwd]; rfl, ?_⟩
     unfold mRecvO
-    rw [hbw]
-    simp only [Option.some.injEq]
-    refine Cfg.ext' ?_ rfl ?_ rfl rfl rfl
-    · show _ = stOut (s.a.outb.map (fun (h : OutHtlc) => { h with st := h.st.onCommitmentSigned })) id
-      rw [stOut_map _ OutState.onCommitmentSigned (fun _ => rfl)]; rfl
-    · show _ = List.filterMap (tokF id) _
-      rw [hfw]; simp [tokF, cfgA]
+    rw [cbwd]
+    simp only [List.singleton_append, Option.some.injEq]
+    refine Cfg.ext' ?_ ci.symm (by rw [cfwd]; rfl) rfl (by rw [cawO, en]; rfl) cawI.symm
+    rw [co, en]
+    show _ = stOut (s.a.outb.map (fun (h : OutHtlc) => { h with st := h.st.onCommitmentSigned })) id
+    rw [stOut_map _ OutState.onCommitmentSigned (fun _ => rfl)]; rfl
   | raa =>
     obtain ⟨hr, _⟩ := onMsg_raa hm
     obtain ⟨haw, en⟩ := onRaa_some hr
     right
-    refine ⟨mRecvO, by simp [moves], ?_⟩
-    have hbw : (cfgA s id).bwd = .raa :: List.filterMap (tokB id) ({ s with a := n, qba := rest, agreed := s.agreed && okb } : Sys).fullBA := by
-      show List.filterMap _ s.fullBA = _
-      rw [hpop]; rfl
-    have hfw : ({ s with a := n, qba := rest, agreed := s.agreed && okb } : Sys).fullAB = s.fullAB := by
-      show full s.qab s.pendA s.needRaaA n.raaSent n.owesRaa = _
-      rw [e1, e2]; rfl
+    have ht : tokB id Msg.raa = some .raa := rfl
+    rw [ht] at cbwd
+    refine ⟨_, ht, by rw [cbwd]; rfl, ?_⟩
     unfold mRecvO
-    rw [hbw]
-    simp only [show (cfgA s id).awO = true from haw, if_true, Option.some.injEq]
-    refine Cfg.ext' ?_ rfl ?_ rfl ?_ rfl
-    · show _ = stOut n.outb id
-      rw [en]
-      show _ = stOut ((s.a.outb.filter raaKeepOut).map raaMapOut) id
-      rw [stOut_onRaa hb.ok.sOut]; rfl
-    · show _ = List.filterMap (tokF id) _
-      rw [hfw]; rfl
-    · show false = n.awaitingRaa
-      rw [en]
+    rw [cbwd]
+    simp only [List.singleton_append, show (cfgA s id).awO = true from haw, if_true, Option.some.injEq]
+    refine Cfg.ext' ?_ ci.symm (by rw [cfwd]; simp [owedFor]) rfl (by rw [cawO, en]) cawI.symm
+    rw [co, en]
+    show _ = stOut ((s.a.outb.filter raaKeepOut).map raaMapOut) id
+    rw [stOut_onRaa hb.ok.sOut]; rfl
 
-/-- `b` processes the head of the a→b stream -/
-theorem cfgA_recv_false {s s' : Sys} (hb : Base s.swap) (h : step s (.recv false) = some s') (id : Nat) :
-    Moved (cfgA s id) (cfgA s' id) := by
-  obtain ⟨m, rest, n, okb, hq, hm, e⟩ := step_recv_false h
-  subst e
-  have hpop : s.fullAB = m :: ({ s with b := n, qab := rest, agreed := s.agreed && okb } : Sys).fullAB := by
-    show full s.qab s.pendA s.needRaaA s.a.raaSent s.a.owesRaa = m :: full rest s.pendA s.needRaaA s.a.raaSent s.a.owesRaa
-    rw [hq, full_pop]
-  obtain ⟨e1, e2⟩ := onMsg_sent_owes hm
-  have hok : NodeOK s.b := hb.ok
-  have hneed : s.pendB ≠ [] → s.needRaaB ≤ s.b.raaSent + s.b.owesRaa := hb.need
-  have hbwd0 : (match m with | .cs _ => False | _ => True) →
-      ({ s with b := n, qab := rest, agreed := s.agreed && okb } : Sys).fullBA = s.fullBA := by
-    intro hm'
-    show full s.qba s.pendB s.needRaaB n.raaSent n.owesRaa = _
-    rw [e1, e2]
-    cases m <;> first | rfl | exact absurd hm' (by simp)
+/-- `b` processes the head `m` of the a→b stream -/
+theorem cfgA_recv_false_precise {s s' : Sys} (hb : Base s) (hb' : Base s.swap) (h : step s (.recv false) = some s')
+    (id : Nat) : ∃ m rest, s.qab = m :: rest ∧
+      ((tokF id m = none ∧ cfgA s' id = cfgA s id) ∨
+       (∃ t, tokF id m = some t ∧ (cfgA s id).fwd.head? = some t ∧ mRecvI (cfgA s id) = some (cfgA s' id))) := by
+  obtain ⟨hpb, m, rest, n, okb, hq, hm, e⟩ := step_recv_false h
+  refine ⟨m, rest, hq, ?_⟩
+  have hok : NodeOK s.b := hb'.ok
+  have hpop : s.fullAB = m :: s'.fullAB := by rw [e]; exact fullAB_pop_recv_false hb hq n _
+  have hbw : s'.fullBA = s.fullBA ++ owedFor m := by rw [e]; exact fullBA_after_recv_false hb' hpb _ hm
+  have hsa : s'.a = s.a := by rw [e]
+  have hsb : s'.b = n := by rw [e]
+  have co : (cfgA s' id).o = (cfgA s id).o := by show stOut s'.a.outb id = _; rw [hsa]; rfl
+  have cawO : (cfgA s' id).awO = (cfgA s id).awO := by show s'.a.awaitingRaa = _; rw [hsa]; rfl
+  have cbwd : (cfgA s' id).bwd = (cfgA s id).bwd ++ (owedFor m).filterMap (tokB id) := by
+    show List.filterMap _ s'.fullBA = _
+    rw [hbw, List.filterMap_append]; rfl
+  have cfwd : (cfgA s id).fwd = (match tokF id m with | some t => [t] | none => []) ++ (cfgA s' id).fwd := by
+    show List.filterMap _ s.fullAB = _
+    rw [hpop, List.filterMap_cons]
+    cases tokF id m <;> rfl
+  have ci : (cfgA s' id).i = stIn n.inb id := by show stIn s'.b.inb id = _; rw [hsb]
+  have cawI : (cfgA s' id).awI = n.awaitingRaa := by show s'.b.awaitingRaa = _; rw [hsb]
   cases m with
   | add id' amt =>
     obtain ⟨hid', _, en⟩ := onMsg_add hm
+    have hi' : stIn n.inb id = (stIn s.b.inb id).or (stIn [({ id := id', amt := amt, st := .remoteAnnounced } : InHtlc)] id) := by
+      rw [en]; exact stIn_append _ _ _
     by_cases hid : id' = id
     · subst hid
       right
-      refine ⟨mRecvI, by simp [moves], ?_⟩
-      have hfw : (cfgA s id').fwd = .add :: List.filterMap (tokF id') ({ s with b := n, qab := rest, agreed := s.agreed && okb } : Sys).fullAB := by
-        show List.filterMap _ s.fullAB = _
-        rw [hpop]; simp [tokF]
+      have ht : tokF id' (Msg.add id' amt) = some .add := by simp [tokF]
+      rw [ht] at cfwd
+      refine ⟨_, ht, by rw [cfwd]; rfl, ?_⟩
       unfold mRecvI
-      rw [hfw]
-      simp only [Option.some.injEq]
-      refine Cfg.ext' rfl ?_ rfl ?_ rfl (by simp only [cfgA, en])
-      · show _ = stIn n.inb id'
-        rw [en]
-        show _ = stIn (s.b.inb ++ [_]) id'
-        rw [stIn_append, stIn_none_of_bound hok.bIn (Nat.le_of_eq hid'.symm)]
-        simp [stIn, lookup_cons]
-      · show _ = List.filterMap (tokB id') _
-        rw [hbwd0 trivial]; rfl
+      rw [cfwd]
+      simp only [List.singleton_append, Option.some.injEq]
+      refine Cfg.ext' co.symm ?_ rfl (by rw [cbwd]; simp [owedFor]) cawO.symm (by rw [cawI, en]; rfl)
+      rw [ci, hi', stIn_none_of_bound hok.bIn (Nat.le_of_eq hid'.symm)]
+      simp [stIn, lookup_cons]
     · left
-      refine Cfg.ext' rfl ?_ ?_ ?_ rfl (by simp only [cfgA, en])
-      · show stIn n.inb id = _
-        rw [en]
-        show stIn (s.b.inb ++ [_]) id = _
-        rw [stIn_append]
-        have : stIn [({ id := id', amt := amt, st := .remoteAnnounced } : InHtlc)] id = none := by
-          simp [stIn, lookup_cons, hid, lookup_nil]
-        rw [this]; simp [cfgA]
-      · show List.filterMap _ _ = List.filterMap (tokF id) s.fullAB
-        rw [hpop]; simp [tokF, hid]
-      · show List.filterMap (tokB id) _ = _
-        rw [hbwd0 trivial]; rfl
+      have ht : tokF id (Msg.add id' amt) = none := by simp [tokF, hid]
+      rw [ht] at cfwd
+      refine ⟨ht, Cfg.ext' co ?_ (by rw [cfwd]; rfl) (by rw [cbwd]; simp [owedFor]) cawO (by rw [cawI, en]; rfl)⟩
+      rw [ci, hi']
+      have : stIn [({ id := id', amt := amt, st := .remoteAnnounced } : InHtlc)] id = none := by
+        simp [stIn, lookup_cons, hid, lookup_nil]
+      rw [this]; simp [cfgA]
   | fulfill id' =>
     obtain ⟨_, _, en⟩ := onMsg_fulfill hm
     left
-    refine Cfg.ext' rfl ?_ ?_ ?_ rfl (by simp only [cfgA, en])
-    · show stIn n.inb id = _
-      rw [en]; rfl
-    · show List.filterMap _ _ = List.filterMap (tokF id) s.fullAB
-      rw [hpop]; rfl
-    · show List.filterMap (tokB id) _ = _
-      rw [hbwd0 trivial]; rfl
+    exact ⟨rfl, Cfg.ext' co (by rw [ci, en]; rfl) (by rw [cfwd]; rfl) (by rw [cbwd]; simp [owedFor]) cawO (by rw [cawI, en]; rfl)⟩
   | fail id' =>
     obtain ⟨_, _, en⟩ := onMsg_fail hm
     left
-    refine Cfg.ext' rfl ?_ ?_ ?_ rfl (by simp only [cfgA, en])
-    · show stIn n.inb id = _
-      rw [en]; rfl
-    · show List.filterMap _ _ = List.filterMap (tokF id) s.fullAB
-      rw [hpop]; rfl
-    · show List.filterMap (tokB id) _ = _
-      rw [hbwd0 trivial]; rfl
+    exact ⟨rfl, Cfg.ext' co (by rw [ci, en]; rfl) (by rw [cfwd]; rfl) (by rw [cbwd]; simp [owedFor]) cawO (by rw [cawI, en]; rfl)⟩
   | cs c =>
     obtain ⟨en, _⟩ := onMsg_cs hm
     right
-    refine ⟨mRecvI, by simp [moves], ?_⟩
-    have hfw : (cfgA s id).fwd = .cs :: List.filterMap (tokF id) ({ s with b := n, qab := rest, agreed := s.agreed && okb } : Sys).fullAB := by
-      show List.filterMap _ s.fullAB = _
-      rw [hpop]; rfl
-    have hbw : ({ s with b := n, qab := rest, agreed := s.agreed && okb } : Sys).fullBA = s.fullBA ++ [Msg.raa] := by
-      show full s.qba s.pendB s.needRaaB n.raaSent n.owesRaa = _
-      rw [e1, e2]
-      exact full_owe _ _ _ _ _ hneed
+    have ht : tokF id (Msg.cs c) = some .cs := rfl
+    rw [ht] at cfwd
+    refine ⟨_, ht, by rw [cfwd]; rfl, ?_⟩
     unfold mRecvI
-    rw [hfw]
-    simp only [Option.some.injEq]
-    refine Cfg.ext' rfl ?_ rfl ?_ ?_ ?_
-    · show _ = stIn n.inb id
-      rw [en]
-      show _ = stIn (s.b.inb.map (fun (h : InHtlc) => { h with st := h.st.onCommitmentSigned })) id
-      rw [stIn_map _ InState.onCommitmentSigned (fun _ => rfl)]; rfl
-    · show _ = List.filterMap (tokB id) _
-      rw [hbw]; simp [tokB, cfgA]
-    · rfl
-    · show s.b.awaitingRaa = n.awaitingRaa
-      rw [en]; rfl
+    rw [cfwd]
+    simp only [List.singleton_append, Option.some.injEq]
+    refine Cfg.ext' co.symm ?_ rfl (by rw [cbwd]; rfl) cawO.symm (by rw [cawI, en]; rfl)
+    rw [ci, en]
+    show _ = stIn (s.b.inb.map (fun (h : InHtlc) => { h with st := h.st.onCommitmentSigned })) id
+    rw [stIn_map _ InState.onCommitmentSigned (fun _ => rfl)]; rfl
   | raa =>
     obtain ⟨hr, _⟩ := onMsg_raa hm
     obtain ⟨haw, en⟩ := onRaa_some hr
     right
-    refine ⟨mRecvI, by simp [moves], ?_⟩
-    have hfw : (cfgA s id).fwd = .raa :: List.filterMap (tokF id) ({ s with b := n, qab := rest, agreed := s.agreed && okb } : Sys).fullAB := by
-      show List.filterMap _ s.fullAB = _
-      rw [hpop]; rfl
+    have ht : tokF id Msg.raa = some .raa := rfl
+    rw [ht] at cfwd
+    refine ⟨_, ht, by rw [cfwd]; rfl, ?_⟩
     unfold mRecvI
-    rw [hfw]
-    simp only [show (cfgA s id).awI = true from haw, if_true, Option.some.injEq]
-    refine Cfg.ext' rfl ?_ rfl ?_ rfl ?_
-    · show _ = stIn n.inb id
-      rw [en]
-      show _ = stIn ((s.b.inb.filter raaKeepIn).map raaMapIn) id
-      rw [stIn_onRaa hok.sIn]; rfl
-    · show _ = List.filterMap (tokB id) _
-      rw [hbwd0 trivial]; rfl
-    · show false = n.awaitingRaa
-      rw [en]
+    rw [cfwd]
+    simp only [List.singleton_append, show (cfgA s id).awI = true from haw, if_true, Option.some.injEq]
+    refine Cfg.ext' co.symm ?_ rfl (by rw [cbwd]; simp [owedFor]) cawO.symm (by rw [cawI, en])
+    rw [ci, en]
+    show _ = stIn ((s.b.inb.filter raaKeepIn).map raaMapIn) id
+    rw [stIn_onRaa hok.sIn]; rfl
+
+theorem cfgA_recv_true {s s' : Sys} (hb : Base s) (hb' : Base s.swap) (h : step s (.recv true) = some s') (id : Nat) :
+    Moved (cfgA s id) (cfgA s' id) := by
+  obtain ⟨m, rest, _, hc | ⟨t, _, _, hc⟩⟩ := cfgA_recv_true_precise hb hb' h id
+  · exact Or.inl hc.2
+  · exact Or.inr ⟨mRecvO, by simp [moves], hc⟩
+
+theorem cfgA_recv_false {s s' : Sys} (hb : Base s) (hb' : Base s.swap) (h : step s (.recv false) = some s') (id : Nat) :
+    Moved (cfgA s id) (cfgA s' id) := by
+  obtain ⟨m, rest, _, hc | ⟨t, _, _, hc⟩⟩ := cfgA_recv_false_precise hb hb' h id
+  · exact Or.inl hc.2
+  · exact Or.inr ⟨mRecvI, by simp [moves], hc⟩
+
+/-! ### reestablish: nothing changes for any HTLC -/
+
+theorem step_swap_of {s s' : Sys} {e : Ev} (h : step s e = some s') : step s.swap e.swap = some s'.swap := by
+  have := step_swap s e; rw [h] at this; exact this
+
+theorem cfgA_reest_true {s s' : Sys} (hb : Base s) (h : step s (.reest true) = some s') (id : Nat) :
+    cfgA s' id = cfgA s id := by
+  have hf := fullAB_reest_true hb h
+  have hf' : s'.fullBA = s.fullBA := fullAB_reest_false (s := s.swap) (s' := s'.swap) (step_swap_of h)
+  obtain ⟨n, p, hr, e⟩ := step_reest_true h
+  obtain ⟨_, _, _, _, _, en, _⟩ := reestablish_some hr
+  have hsa : s'.a = n := by rw [e]
+  have hsb : s'.b = s.b := by rw [e]
+  exact Cfg.ext' (by show stOut s'.a.outb id = stOut s.a.outb id; rw [hsa, en]) (by show stIn s'.b.inb id = _; rw [hsb]; rfl)
+    (by show List.filterMap _ _ = List.filterMap _ _; rw [hf]) (by show List.filterMap _ _ = List.filterMap _ _; rw [hf'])
+    (by show s'.a.awaitingRaa = s.a.awaitingRaa; rw [hsa, en]) (by show s'.b.awaitingRaa = _; rw [hsb]; rfl)
+
+theorem cfgA_reest_false {s s' : Sys} (hb' : Base s.swap) (h : step s (.reest false) = some s') (id : Nat) :
+    cfgA s' id = cfgA s id := by
+  have hf := fullAB_reest_false h
+  have hf' : s'.fullBA = s.fullBA := fullAB_reest_true (s := s.swap) (s' := s'.swap) hb' (step_swap_of h)
+  obtain ⟨n, p, hr, e⟩ := step_reest_false h
+  obtain ⟨_, _, _, _, _, en, _⟩ := reestablish_some hr
+  have hsa : s'.a = s.a := by rw [e]
+  have hsb : s'.b = n := by rw [e]
+  exact Cfg.ext' (by show stOut s'.a.outb id = _; rw [hsa]; rfl) (by show stIn s'.b.inb id = stIn s.b.inb id; rw [hsb, en])
+    (by show List.filterMap _ _ = List.filterMap _ _; rw [hf]) (by show List.filterMap _ _ = List.filterMap _ _; rw [hf'])
+    (by show s'.a.awaitingRaa = _; rw [hsa]; rfl) (by show s'.b.awaitingRaa = s.b.awaitingRaa; rw [hsb, en])
+
+/-! ### disconnection: the abstract `mDisc` move
+
+Both the old token stream (any good configuration has canonical shape) and the retransmission stream are
+determined by four Booleans; the invariants `Base.i1/i2/i7` say the Booleans agree. -/
+
+theorem raaBefore_nil : raaBefore [] = false := rfl
+theorem raaBefore_cons_cs (l : List Tok) : raaBefore (.cs :: l) = false := by simp [raaBefore]
+theorem raaBefore_cons_raa (l : List Tok) : raaBefore (.raa :: l) = l.contains .cs := by
+  simp [raaBefore, List.takeWhile_cons]
+theorem raaBefore_cons_other (t : Tok) (l : List Tok) (h1 : t ≠ .cs) (h2 : t ≠ .raa) : raaBefore (t :: l) = raaBefore l := by
+  cases t with
+  | cs => exact absurd rfl h1
+  | raa => exact absurd rfl h2
+  | add => simp [raaBefore, List.takeWhile_cons]
+  | rem ok => simp [raaBefore, List.takeWhile_cons]
+
+theorem tokF_profile (id : Nat) (l : List Msg) :
+    (l.filterMap (tokF id)).contains .cs = hasCs l ∧
+    (l.filterMap (tokF id)).contains .raa = decide (countRaa l ≠ 0) ∧
+    raaBefore (l.filterMap (tokF id)) = raaFirst l := by
+  induction l with
+  | nil => exact ⟨rfl, rfl, rfl⟩
+  | cons m l ih =>
+    obtain ⟨h1, h2, h3⟩ := ih
+    cases m with
+    | cs c =>
+      refine ⟨by simp [tokF, hasCs], ?_, by simp [tokF, raaBefore_cons_cs, raaFirst]⟩
+      simp only [List.filterMap_cons, tokF, countRaa_cons]
+      simpa using h2
+    | raa =>
+      refine ⟨?_, by simp [tokF, countRaa_cons], ?_⟩
+      · simp only [List.filterMap_cons, tokF]; simpa [hasCs] using h1
+      · simp only [List.filterMap_cons, tokF, raaBefore_cons_raa, raaFirst]; exact h1
+    | add id' amt =>
+      by_cases e : id' = id
+      · refine ⟨?_, ?_, ?_⟩
+        · simp only [List.filterMap_cons, tokF, if_pos e]; simpa [hasCs] using h1
+        · simp only [List.filterMap_cons, tokF, if_pos e, countRaa_cons]; simpa using h2
+        · simp only [List.filterMap_cons, tokF, if_pos e]
+          rw [raaBefore_cons_other _ _ (by simp) (by simp)]; exact h3
+      · refine ⟨?_, ?_, ?_⟩
+        · simp only [List.filterMap_cons, tokF, if_neg e]; simpa [hasCs] using h1
+        · simp only [List.filterMap_cons, tokF, if_neg e, countRaa_cons]; simpa using h2
+        · simp only [List.filterMap_cons, tokF, if_neg e]; exact h3
+    | fulfill id' =>
+      refine ⟨?_, ?_, ?_⟩
+      · simp only [List.filterMap_cons, tokF]; simpa [hasCs] using h1
+      · simp only [List.filterMap_cons, tokF, countRaa_cons]; simpa using h2
+      · simp only [List.filterMap_cons, tokF]; exact h3
+    | fail id' =>
+      refine ⟨?_, ?_, ?_⟩
+      · simp only [List.filterMap_cons, tokF]; simpa [hasCs] using h1
+      · simp only [List.filterMap_cons, tokF, countRaa_cons]; simpa using h2
+      · simp only [List.filterMap_cons, tokF]; exact h3
+
+theorem tokB_profile (id : Nat) (l : List Msg) :
+    (l.filterMap (tokB id)).contains .cs = hasCs l ∧
+    (l.filterMap (tokB id)).contains .raa = decide (countRaa l ≠ 0) ∧
+    raaBefore (l.filterMap (tokB id)) = raaFirst l := by
+  induction l with
+  | nil => exact ⟨rfl, rfl, rfl⟩
+  | cons m l ih =>
+    obtain ⟨h1, h2, h3⟩ := ih
+    cases m with
+    | cs c =>
+      refine ⟨by simp [tokB, hasCs], ?_, by simp [tokB, raaBefore_cons_cs, raaFirst]⟩
+      simp only [List.filterMap_cons, tokB, countRaa_cons]
+      simpa using h2
+    | raa =>
+      refine ⟨?_, by simp [tokB, countRaa_cons], ?_⟩
+      · simp only [List.filterMap_cons, tokB]; simpa [hasCs] using h1
+      · simp only [List.filterMap_cons, tokB, raaBefore_cons_raa, raaFirst]; exact h1
+    | add id' amt =>
+      refine ⟨?_, ?_, ?_⟩
+      · simp only [List.filterMap_cons, tokB]; simpa [hasCs] using h1
+      · simp only [List.filterMap_cons, tokB, countRaa_cons]; simpa using h2
+      · simp only [List.filterMap_cons, tokB]; exact h3
+    | fulfill id' =>
+      by_cases e : id' = id
+      · refine ⟨?_, ?_, ?_⟩
+        · simp only [List.filterMap_cons, tokB, if_pos e]; simpa [hasCs] using h1
+        · simp only [List.filterMap_cons, tokB, if_pos e, countRaa_cons]; simpa using h2
+        · simp only [List.filterMap_cons, tokB, if_pos e]
+          rw [raaBefore_cons_other _ _ (by simp) (by simp)]; exact h3
+      · refine ⟨?_, ?_, ?_⟩
+        · simp only [List.filterMap_cons, tokB, if_neg e]; simpa [hasCs] using h1
+        · simp only [List.filterMap_cons, tokB, if_neg e, countRaa_cons]; simpa using h2
+        · simp only [List.filterMap_cons, tokB, if_neg e]; exact h3
+    | fail id' =>
+      by_cases e : id' = id
+      · refine ⟨?_, ?_, ?_⟩
+        · simp only [List.filterMap_cons, tokB, if_pos e]; simpa [hasCs] using h1
+        · simp only [List.filterMap_cons, tokB, if_pos e, countRaa_cons]; simpa using h2
+        · simp only [List.filterMap_cons, tokB, if_pos e]
+          rw [raaBefore_cons_other _ _ (by simp) (by simp)]; exact h3
+      · refine ⟨?_, ?_, ?_⟩
+        · simp only [List.filterMap_cons, tokB, if_neg e]; simpa [hasCs] using h1
+        · simp only [List.filterMap_cons, tokB, if_neg e, countRaa_cons]; simpa using h2
+        · simp only [List.filterMap_cons, tokB, if_neg e]; exact h3
+
+theorem fm_none {α : Type} {key : α → Nat} (l : List α) (p : α → Bool) (mk : α → Msg) (tk : Msg → Option Tok) (t : Tok) (id : Nat)
+    (hmk : ∀ h, tk (mk h) = if key h = id then some t else none) (hno : ∀ h ∈ l, key h ≠ id) :
+    ((l.filter p).map mk).filterMap tk = [] := by
+  rw [List.filterMap_eq_nil_iff]
+  intro m hm
+  obtain ⟨h, hh, e⟩ := List.mem_map.1 hm
+  rw [← e, hmk, if_neg (hno h (List.mem_filter.1 hh).1)]
+
+/-- the tokens of "one message per selected element" over an id-sorted list -/
+theorem fm_sorted {α : Type} {key : α → Nat} {l : List α} (hs : Sorted key l) (p : α → Bool) (mk : α → Msg)
+    (tk : Msg → Option Tok) (t : Tok) (id : Nat) (hmk : ∀ h, tk (mk h) = if key h = id then some t else none) :
+    ((l.filter p).map mk).filterMap tk = if ((lookup key l id).filter p).isSome then [t] else [] := by
+  induction l with
+  | nil => rfl
+  | cons x l ih =>
+    rw [lookup_cons]
+    by_cases hx : key x = id
+    · have hno : ∀ h ∈ l, key h ≠ id := by intro h hh; have := hs.head_lt h hh; omega
+      have hrest := fm_none l p mk tk t id hmk hno
+      rw [if_pos hx]
+      by_cases hp : p x = true
+      · simp [List.filter_cons, hp, hmk, hx, hrest, Option.filter]
+      · simp [List.filter_cons, hp, hrest, Option.filter]
+    · rw [if_neg hx, ← ih hs.tail]
+      by_cases hp : p x = true
+      · simp [List.filter_cons, hp, hmk, hx]
+      · simp [List.filter_cons, hp]
+
+theorem tokF_replicate (id k : Nat) : (List.replicate k Msg.raa).filterMap (tokF id) = List.replicate k Tok.raa := by
+  induction k with
+  | zero => rfl
+  | succ k ih => rw [List.replicate_succ, List.filterMap_cons, ih]; rfl
+theorem tokB_replicate (id k : Nat) : (List.replicate k Msg.raa).filterMap (tokB id) = List.replicate k Tok.raa := by
+  induction k with
+  | zero => rfl
+  | succ k ih => rw [List.replicate_succ, List.filterMap_cons, ih]; rfl
+
+theorem tokF_lastBatch {n : Node} (ok : NodeOK n) (id : Nat) :
+    n.lastBatch.filterMap (tokF id) = (if stOut n.outb id = some .localAnnounced then [.add] else []) ++ [.cs] := by
+  unfold Node.lastBatch
+  rw [List.filterMap_append, List.filterMap_append, List.filterMap_append,
+    fm_sorted ok.sOut (fun h => h.st == .localAnnounced) (fun h => Msg.add h.id h.amt) (tokF id) .add id (fun h => rfl)]
+  have h2 : ((n.inb.filter (fun h => h.st == .localRemoved true)).map (fun h => Msg.fulfill h.id)).filterMap (tokF id) = [] := by
+    rw [List.filterMap_eq_nil_iff]; intro m hm; obtain ⟨h, _, e⟩ := List.mem_map.1 hm; rw [← e]; rfl
+  have h3 : ((n.inb.filter (fun h => h.st == .localRemoved false)).map (fun h => Msg.fail h.id)).filterMap (tokF id) = [] := by
+    rw [List.filterMap_eq_nil_iff]; intro m hm; obtain ⟨h, _, e⟩ := List.mem_map.1 hm; rw [← e]; rfl
+  rw [h2, h3]
+  have : ((lookup (fun h : OutHtlc => h.id) n.outb id).filter (fun h => h.st == .localAnnounced)).isSome
+      = decide (stOut n.outb id = some .localAnnounced) := by
+    unfold stOut lookOut
+    cases lookup (fun h : OutHtlc => h.id) n.outb id with
+    | none => simp [Option.filter]
+    | some h => by_cases e : h.st = .localAnnounced <;> simp [Option.filter, e]
+  rw [this]
+  by_cases e : stOut n.outb id = some .localAnnounced <;> simp [e, tokF]
+
+theorem tokB_lastBatch {n : Node} (ok : NodeOK n) (id : Nat) :
+    n.lastBatch.filterMap (tokB id)
+      = (match lrOf (stIn n.inb id) with | some ok => [.rem ok] | none => []) ++ [.cs] := by
+  unfold Node.lastBatch
+  rw [List.filterMap_append, List.filterMap_append, List.filterMap_append,
+    fm_sorted ok.sIn (fun h => h.st == .localRemoved true) (fun h => Msg.fulfill h.id) (tokB id) (.rem true) id (fun h => rfl),
+    fm_sorted ok.sIn (fun h => h.st == .localRemoved false) (fun h => Msg.fail h.id) (tokB id) (.rem false) id (fun h => rfl)]
+  have h1 : ((n.outb.filter (fun h => h.st == .localAnnounced)).map (fun h => Msg.add h.id h.amt)).filterMap (tokB id) = [] := by
+    rw [List.filterMap_eq_nil_iff]; intro m hm; obtain ⟨h, _, e⟩ := List.mem_map.1 hm; rw [← e]; rfl
+  rw [h1]
+  unfold stIn lookIn
+  cases lookup (fun h : InHtlc => h.id) n.inb id with
+  | none => simp [Option.filter, lrOf, tokB]
+  | some h =>
+    obtain ⟨hid, amt, st⟩ := h
+    cases st with
+    | localRemoved ok => cases ok <;> simp [Option.filter, lrOf, tokB]
+    | remoteAnnounced => simp [Option.filter, lrOf, tokB]
+    | awaitingRemoteRevokeToAnnounce => simp [Option.filter, lrOf, tokB]
+    | awaitingAnnouncedRemoteRevoke => simp [Option.filter, lrOf, tokB]
+    | committed => simp [Option.filter, lrOf, tokB]
+
+/-- the four Booleans of a (good) old stream, from the invariants -/
+theorem old_profile {s : Sys} (hb : Base s) (hb' : Base s.swap) :
+    hasCs s.fullAB = decide (s.a.csSent ≠ s.b.csRecv) ∧
+    decide (countRaa s.fullAB ≠ 0) = decide (s.b.raaRecv < s.a.csRecv) ∧
+    raaFirst s.fullAB = (decide (s.a.csSent ≠ s.b.csRecv) && decide (s.b.raaRecv < s.needRaaA)) ∧
+    s.a.csRecv - s.b.raaRecv ≤ 1 := by
+  have i1 := hb.i1
+  have i2 := hb.i2
+  have rb := hb.raaBound hb'
+  refine ⟨?_, ?_, ?_, by omega⟩
+  · by_cases h : countCs s.fullAB = 0
+    · rw [hasCs_false_of_count h]; symm; simp; omega
+    · rw [(hasCs_iff_count _).2 h]; symm; simp; omega
+  · by_cases h : countRaa s.fullAB = 0
+    · simp [h]; omega
+    · simp [h]; omega
+  · by_cases h : countCs s.fullAB = 0
+    · have : hasCs s.fullAB = false := hasCs_false_of_count h
+      have hr : raaFirst s.fullAB = false := by
+        -- no commitment_signed in the stream
+        have key : ∀ l : List Msg, hasCs l = false → raaFirst l = false := by
+          intro l
+          induction l with
+          | nil => intro _; rfl
+          | cons m l ih =>
+            intro hl
+            cases m with
+            | cs c => simp [hasCs] at hl
+            | raa =>
+              have : hasCs l = false := by simpa [hasCs] using hl
+              simp [raaFirst, this]
+            | add _ _ => exact ih (by simpa [hasCs] using hl)
+            | fulfill _ => exact ih (by simpa [hasCs] using hl)
+            | fail _ => exact ih (by simpa [hasCs] using hl)
+        exact key _ this
+      rw [hr]; symm; simp; omega
+    · rw [hb.i7 h]
+      have : decide (s.a.csSent ≠ s.b.csRecv) = true := by simp; omega
+      rw [this]; simp
+
+/-- tokens of the retransmission stream -/
+theorem retrans_tokens (tk : Msg → Option Tok) (hrep : ∀ k, (List.replicate k Msg.raa).filterMap tk = List.replicate k Tok.raa)
+    (R : List Msg) (need r ow : Nat) (how : ow ≤ 1) (hpre : R ≠ [] → need - r ≤ ow) :
+    (full [] R need r ow).filterMap tk
+      = (if R ≠ [] ∧ r < need then [Tok.raa] else []) ++ R.filterMap tk
+          ++ (if ow ≠ 0 ∧ ¬ (R ≠ [] ∧ r < need) then [Tok.raa] else []) := by
+  unfold full
+  rw [List.nil_append, List.filterMap_append, List.filterMap_append, hrep, hrep]
+  by_cases hR : R = []
+  · subst hR
+    simp only [if_true, ne_eq, not_true_eq_false, false_and, if_false, Nat.sub_zero, not_false_eq_true, and_true]
+    cases ow with
+    | zero => rfl
+    | succ k => have : k = 0 := by omega
+                subst this; rfl
+  · have hp := hpre hR
+    rw [if_neg hR]
+    simp only [ne_eq, hR, not_false_eq_true, true_and]
+    by_cases hlt : r < need
+    · have h1 : need - r = 1 := by omega
+      have h2 : ow - 1 = 0 := by omega
+      rw [if_pos hlt, h1, h2]; simp [hlt]
+    · have h1 : need - r = 0 := by omega
+      rw [if_neg hlt, h1, Nat.sub_zero]
+      cases ow with
+      | zero => simp
+      | succ k => have : k = 0 := by omega
+                  subst this; simp [hlt]
+
+theorem unRR_opt (o : Option OutState) :
+    o.map unRRst = discO o := by
+  cases o with
+  | none => rfl
+  | some st => cases st <;> rfl
+
+theorem unRR_LA (o : Option OutState) : (o.map unRRst = some .localAnnounced) ↔ (o = some .localAnnounced) := by
+  cases o with
+  | none => simp
+  | some st => cases st <;> simp [unRRst]
+
+theorem notRA_opt (i : Option InState) :
+    i.filter (fun st => st != .remoteAnnounced) = (if i = some .remoteAnnounced then none else i) := by
+  cases i with
+  | none => rfl
+  | some st => cases st <;> simp [Option.filter]
+
+theorem lrOf_notRA (i : Option InState) : lrOf (i.filter (fun st => st != .remoteAnnounced)) = lrOf i := by
+  cases i with
+  | none => rfl
+  | some st => cases st <;> simp [Option.filter, lrOf]
+
+/-- new a→b tokens after a disconnection, in canonical form -/
+theorem disc_new_fwd {s s' : Sys} (hb : Base s) (hb' : Base s.swap) (h : step s .disconnect = some s') (id : Nat) :
+    s'.fullAB.filterMap (tokF id)
+      = canonF (decide (s.a.csSent ≠ s.b.csRecv) && decide (s.b.raaRecv < s.needRaaA)) (decide (s.a.csSent ≠ s.b.csRecv))
+          (decide (stOut s.a.outb id = some .localAnnounced))
+          (decide (s.b.raaRecv < s.a.csRecv) && !(decide (s.a.csSent ≠ s.b.csRecv) && decide (s.b.raaRecv < s.needRaaA))) := by
+  obtain ⟨_, _, _, how⟩ := old_profile hb hb'
+  have i2 := hb.i2
+  have i5 := hb.i5
+  rw [fullAB_disconnect h, retrans_tokens _ (tokF_replicate id) _ _ _ _ how (by intro _; omega)]
+  have hcs : s.a.pause.csSent = s.a.csSent := (pause_fields s.a).2.2.2.2.1
+  unfold Node.retrans
+  rw [hcs]
+  by_cases hl : s.a.csSent = s.b.csRecv
+  · simp only [if_pos hl, ne_eq, not_true_eq_false, false_and, if_false, List.filterMap_nil, hl, decide_false,
+      Bool.false_and, Bool.not_false, Bool.and_true, not_false_eq_true, and_true]
+    unfold canonF
+    by_cases hr : s.b.raaRecv < s.a.csRecv
+    · have : s.a.csRecv - s.b.raaRecv ≠ 0 := by omega
+      simp [hr, this]
+    · have : s.a.csRecv - s.b.raaRecv = 0 := by omega
+      simp [hr, this]
+  · have hne : s.a.pause.lastBatch ≠ [] := lastBatch_ne_nil _
+    rw [if_neg hl, tokF_lastBatch (hb.ok.pause hb.ra), stOut_pause hb.ok hb.pk]
+    have hLA : (Option.map unRRst (stOut s.a.outb id) = some OutState.localAnnounced) ↔ (stOut s.a.outb id = some .localAnnounced) :=
+      unRR_LA _
+    have hw : (s.a.csRecv - s.b.raaRecv = 0) ↔ ¬ s.b.raaRecv < s.a.csRecv := by omega
+    have hlt : s.b.raaRecv < s.needRaaA → s.b.raaRecv < s.a.csRecv := by intro h; omega
+    unfold canonF
+    by_cases hn : s.b.raaRecv < s.needRaaA
+    · have hr := hlt hn
+      by_cases ho : stOut s.a.outb id = some .localAnnounced <;> simp [hl, hn, hr, ho, hne, hLA, hw, unRRst]
+    · by_cases hr : s.b.raaRecv < s.a.csRecv <;>
+        by_cases ho : stOut s.a.outb id = some .localAnnounced <;> simp [hl, hn, hr, ho, hne, hLA, hw, unRRst]
+
+/-- the old a→b tokens, in canonical form -/
+theorem disc_old_fwd {s : Sys} (hb : Base s) (hb' : Base s.swap) (id : Nat) (hg : good (cfgA s id) = true) :
+    (cfgA s id).fwd
+      = canonF (decide (s.a.csSent ≠ s.b.csRecv) && decide (s.b.raaRecv < s.needRaaA)) (decide (s.a.csSent ≠ s.b.csRecv))
+          ((cfgA s id).fwd.contains .add)
+          (decide (s.b.raaRecv < s.a.csRecv) && !(decide (s.a.csSent ≠ s.b.csRecv) && decide (s.b.raaRecv < s.needRaaA))) := by
+  obtain ⟨p1, p2, p3, _⟩ := old_profile hb hb'
+  obtain ⟨t1, t2, t3⟩ := tokF_profile id s.fullAB
+  have hs := good_fwd_shape _ hg
+  have hs' : (cfgA s id).fwd = canonF (raaBefore (cfgA s id).fwd) ((cfgA s id).fwd.contains .cs) ((cfgA s id).fwd.contains .add)
+      (raaAfter (cfgA s id).fwd) := by simpa using hs
+  have e1 : (cfgA s id).fwd.contains .cs = decide (s.a.csSent ≠ s.b.csRecv) := by
+    show (s.fullAB.filterMap (tokF id)).contains .cs = _; rw [t1, p1]
+  have e2 : raaBefore (cfgA s id).fwd = (decide (s.a.csSent ≠ s.b.csRecv) && decide (s.b.raaRecv < s.needRaaA)) := by
+    show raaBefore (s.fullAB.filterMap (tokF id)) = _; rw [t3, p3]
+  have e3 : (cfgA s id).fwd.contains .raa = decide (s.b.raaRecv < s.a.csRecv) := by
+    show (s.fullAB.filterMap (tokF id)).contains .raa = _; rw [t2, p2]
+  have e4 : raaAfter (cfgA s id).fwd = (decide (s.b.raaRecv < s.a.csRecv) && !(decide (s.a.csSent ≠ s.b.csRecv) && decide (s.b.raaRecv < s.needRaaA))) := by
+    unfold raaAfter; rw [e3, e2]
+  rw [e1, e2, e4] at hs'
+  exact hs'
+
+theorem disc_new_bwd {s s' : Sys} (hb : Base s) (hb' : Base s.swap) (h : step s .disconnect = some s') (id : Nat) :
+    s'.fullBA.filterMap (tokB id)
+      = canonB (decide (s.b.csSent ≠ s.a.csRecv) && decide (s.a.raaRecv < s.needRaaB)) (decide (s.b.csSent ≠ s.a.csRecv))
+          (lrOf (stIn s.b.inb id))
+          (decide (s.a.raaRecv < s.b.csRecv) && !(decide (s.b.csSent ≠ s.a.csRecv) && decide (s.a.raaRecv < s.needRaaB))) := by
+  obtain ⟨_, _, _, how⟩ := old_profile hb' (by simpa using hb)
+  have i2 : s.a.raaRecv + countRaa s.fullBA = s.b.csRecv := hb'.i2
+  have i5 : s.needRaaB ≤ s.b.csRecv := hb'.i5
+  have hf : s'.fullBA = full [] (s.b.pause.retrans s.a.csRecv) s.needRaaB s.a.raaRecv (s.b.csRecv - s.a.raaRecv) :=
+    fullAB_disconnect (s := s.swap) (s' := s'.swap) (step_swap_of h)
+  have how' : s.b.csRecv - s.a.raaRecv ≤ 1 := how
+  rw [hf, retrans_tokens _ (tokB_replicate id) _ _ _ _ how' (by intro _; omega)]
+  have hcs : s.b.pause.csSent = s.b.csSent := (pause_fields s.b).2.2.2.2.1
+  have hok : NodeOK s.b := hb'.ok
+  unfold Node.retrans
+  rw [hcs]
+  by_cases hl : s.b.csSent = s.a.csRecv
+  · simp only [if_pos hl, ne_eq, not_true_eq_false, false_and, if_false, List.filterMap_nil, hl, decide_false,
+      Bool.false_and, Bool.not_false, Bool.and_true, not_false_eq_true, and_true]
+    unfold canonB
+    by_cases hr : s.a.raaRecv < s.b.csRecv
+    · have : s.b.csRecv - s.a.raaRecv ≠ 0 := by omega
+      simp [hr, this]
+    · have : s.b.csRecv - s.a.raaRecv = 0 := by omega
+      simp [hr, this]
+  · have hne : s.b.pause.lastBatch ≠ [] := lastBatch_ne_nil _
+    rw [if_neg hl, tokB_lastBatch (hok.pause hb'.ra), stIn_pause hok hb'.pk, lrOf_notRA]
+    have hw : (s.b.csRecv - s.a.raaRecv = 0) ↔ ¬ s.a.raaRecv < s.b.csRecv := by omega
+    have hlt : s.a.raaRecv < s.needRaaB → s.a.raaRecv < s.b.csRecv := by intro h; omega
+    unfold canonB
+    by_cases hn : s.a.raaRecv < s.needRaaB
+    · have hr := hlt hn
+      simp [hl, hn, hr, hne, hw] <;> rfl
+    · by_cases hr : s.a.raaRecv < s.b.csRecv <;> simp [hl, hn, hr, hne, hw] <;> rfl
+
+theorem disc_old_bwd {s : Sys} (hb : Base s) (hb' : Base s.swap) (id : Nat) (hg : good (cfgA s id) = true) :
+    (cfgA s id).bwd
+      = canonB (decide (s.b.csSent ≠ s.a.csRecv) && decide (s.a.raaRecv < s.needRaaB)) (decide (s.b.csSent ≠ s.a.csRecv))
+          (remOf (cfgA s id).bwd)
+          (decide (s.a.raaRecv < s.b.csRecv) && !(decide (s.b.csSent ≠ s.a.csRecv) && decide (s.a.raaRecv < s.needRaaB))) := by
+  obtain ⟨p1, p2, p3, _⟩ := old_profile hb' (by simpa using hb)
+  obtain ⟨t1, t2, t3⟩ := tokB_profile id s.fullBA
+  have hs := good_bwd_shape _ hg
+  have hs' : (cfgA s id).bwd = canonB (raaBefore (cfgA s id).bwd) ((cfgA s id).bwd.contains .cs) (remOf (cfgA s id).bwd)
+      (raaAfter (cfgA s id).bwd) := by simpa using hs
+  have e1 : (cfgA s id).bwd.contains .cs = decide (s.b.csSent ≠ s.a.csRecv) := by
+    show (s.fullBA.filterMap (tokB id)).contains .cs = _; rw [t1]; exact p1
+  have e2 : raaBefore (cfgA s id).bwd = (decide (s.b.csSent ≠ s.a.csRecv) && decide (s.a.raaRecv < s.needRaaB)) := by
+    show raaBefore (s.fullBA.filterMap (tokB id)) = _; rw [t3]; exact p3
+  have e3 : (cfgA s id).bwd.contains .raa = decide (s.a.raaRecv < s.b.csRecv) := by
+    show (s.fullBA.filterMap (tokB id)).contains .raa = _; rw [t2]; exact p2
+  have e4 : raaAfter (cfgA s id).bwd = (decide (s.a.raaRecv < s.b.csRecv) && !(decide (s.b.csSent ≠ s.a.csRecv) && decide (s.a.raaRecv < s.needRaaB))) := by
+    unfold raaAfter; rw [e3, e2]
+  rw [e1, e2, e4] at hs'
+  exact hs'
+
+theorem fwd_assemble (fwd : List Tok) (i : Option InState) (rb L A O R' : Bool)
+    (hold : fwd = canonF rb L A R')
+    (h1 : i = some .remoteAnnounced → L = true ∧ A = false ∧ O = true)
+    (h2 : i ≠ some .remoteAnnounced → L = true → A = O) :
+    (if i = some .remoteAnnounced then insBefore .add fwd else fwd) = canonF rb L O R' := by
+  subst hold
+  by_cases hi : i = some .remoteAnnounced
+  · obtain ⟨e1, e2, e3⟩ := h1 hi
+    subst e1; subst e2; subst e3
+    rw [if_pos hi]; exact insBefore_canonF rb R'
+  · rw [if_neg hi]
+    cases L with
+    | true => rw [h2 hi rfl]
+    | false => cases A <;> cases O <;> rfl
+
+theorem bwd_assemble (bwd : List Tok) (o : Option OutState) (rb L : Bool) (Rm hr : Option Bool) (R' : Bool)
+    (hold : bwd = canonB rb L Rm R')
+    (h1 : ∀ ok, o = some (.remoteRemoved ok) → L = true ∧ Rm = none ∧ hr = some ok)
+    (h2 : (∀ ok, o ≠ some (.remoteRemoved ok)) → L = true → Rm = hr) :
+    discBwd o bwd = canonB rb L hr R' := by
+  subst hold
+  have hno : (∀ ok, o ≠ some (.remoteRemoved ok)) → canonB rb L Rm R' = canonB rb L hr R' := by
+    intro hn
+    cases L with
+    | true => rw [h2 hn rfl]
+    | false => unfold canonB; simp
+  cases o with
+  | none => exact hno (fun ok h => by cases h)
+  | some st =>
+    cases st with
+    | remoteRemoved ok =>
+      obtain ⟨e1, e2, e3⟩ := h1 ok rfl
+      subst e1; subst e2; subst e3
+      exact insBefore_canonB ok rb R'
+    | localAnnounced => exact hno (fun ok h => by cases h)
+    | committed => exact hno (fun ok h => by cases h)
+    | awaitingRemoteRevokeToRemove _ => exact hno (fun ok h => by cases h)
+    | awaitingRemovedRemoteRevoke _ => exact hno (fun ok h => by cases h)
+
+/-- a disconnection acts on every HTLC configuration by `mDisc` -/
+theorem cfgA_disconnect {s s' : Sys} (hb : Base s) (hb' : Base s.swap) (h : step s .disconnect = some s') (id : Nat)
+    (hg : good (cfgA s id) = true) : mDisc (cfgA s id) = some (cfgA s' id) := by
+  have e := step_disconnect h
+  have hsa : s'.a = s.a.pause := by rw [e]
+  have hsb : s'.b = s.b.pause := by rw [e]
+  have hok : NodeOK s.b := hb'.ok
+  have f1 := good_disc_fwd _ hg
+  have f2 := good_disc_bwd _ hg
+  have hcs : (cfgA s id).fwd.contains .cs = decide (s.a.csSent ≠ s.b.csRecv) := by
+    obtain ⟨p1, _, _, _⟩ := old_profile hb hb'
+    show (s.fullAB.filterMap (tokF id)).contains .cs = _; rw [(tokF_profile id s.fullAB).1, p1]
+  have hcsB : (cfgA s id).bwd.contains .cs = decide (s.b.csSent ≠ s.a.csRecv) := by
+    obtain ⟨p1, _, _, _⟩ := old_profile hb' (by simpa using hb)
+    show (s.fullBA.filterMap (tokB id)).contains .cs = _; rw [(tokB_profile id s.fullBA).1]; exact p1
+  unfold mDisc
+  simp only [Option.some.injEq]
+  refine Cfg.ext' ?_ ?_ ?_ ?_ ?_ ?_
+  · show _ = stOut s'.a.outb id
+    rw [hsa, stOut_pause hb.ok hb.pk, unRR_opt]; rfl
+  · show _ = stIn s'.b.inb id
+    rw [hsb, stIn_pause hok hb'.pk, notRA_opt]; rfl
+  · show _ = s'.fullAB.filterMap (tokF id)
+    rw [disc_new_fwd hb hb' h id]
+    simp only [Bool.and_eq_true, Bool.or_eq_true, Bool.not_eq_true', beq_iff_eq] at f1
+    obtain ⟨f1a, f1b⟩ := f1
+    have hO : ((cfgA s id).o == some OutState.localAnnounced) = decide (stOut s.a.outb id = some .localAnnounced) := by
+      show (stOut s.a.outb id == some OutState.localAnnounced) = _
+      by_cases e : stOut s.a.outb id = some .localAnnounced <;> simp [e]
+    apply fwd_assemble _ _ _ _ _ _ _ (disc_old_fwd hb hb' id hg)
+    · intro hi
+      rcases f1a with f1a | f1a
+      · rw [hi] at f1a; simp at f1a
+      · refine ⟨by rw [← hcs]; exact f1a.1, f1a.2, ?_⟩
+        rcases f1b with f1b | f1b
+        · rw [f1a.1] at f1b; cases f1b
+        · rw [← hO, ← f1b, hi]; simp
+    · intro hi hL
+      rcases f1b with f1b | f1b
+      · rw [hcs, hL] at f1b; cases f1b
+      · rw [← hO, ← f1b]
+        have : ((cfgA s id).i == some InState.remoteAnnounced) = false := by simpa using hi
+        rw [this, Bool.or_false]
+  · show _ = s'.fullBA.filterMap (tokB id)
+    rw [disc_new_bwd hb hb' h id]
+    have hio : lrOf (stIn s.b.inb id) = lrOf (cfgA s id).i := rfl
+    rw [hio]
+    apply bwd_assemble _ _ _ _ _ _ _ (disc_old_bwd hb hb' id hg)
+    · intro ok ho
+      rw [ho] at f2
+      simp only [Bool.and_eq_true, Bool.or_eq_true, Bool.not_eq_true', beq_iff_eq] at f2
+      obtain ⟨⟨⟨g1, g2⟩, g3⟩, _⟩ := f2
+      exact ⟨by rw [← hcsB]; exact g1, g2, g3⟩
+    · intro hno hL
+      have hm : ∀ (X : Bool) (Y Z : Option Bool), (match (cfgA s id).o with | some (.remoteRemoved ok) => X | _ => true) = true ∨ True := fun _ _ _ => Or.inr trivial
+      have key : (match (cfgA s id).o with | some (OutState.remoteRemoved ok) => some ok | _ => remOf (cfgA s id).bwd) = remOf (cfgA s id).bwd := by
+        cases ho : (cfgA s id).o with
+        | none => rfl
+        | some st => cases st <;> first | rfl | exact absurd ho (hno _)
+      simp only [Bool.and_eq_true, Bool.or_eq_true, Bool.not_eq_true', beq_iff_eq] at f2
+      rcases f2.2 with g | g
+      · rw [hcsB, hL] at g; cases g
+      · first | exact g | exact key.symm.trans g
+  · show s.a.awaitingRaa = s'.a.awaitingRaa
+    rw [hsa, (pause_fields s.a).2.1]
+  · show s.b.awaitingRaa = s'.b.awaitingRaa
+    rw [hsb, (pause_fields s.b).2.1]
 
 /-- every guarded step moves every HTLC configuration (of the a-offered family) along the abstract system -/
-theorem cfgA_step {s s' : Sys} {e : Ev} (hb : Base s) (hb' : Base s.swap) (h : stepG s e = some s') (id : Nat) :
-    Moved (cfgA s id) (cfgA s' id) := by
+theorem cfgA_step {s s' : Sys} {e : Ev} (hb : Base s) (hb' : Base s.swap) (h : stepG s e = some s') (id : Nat)
+    (hg : good (cfgA s id) = true) : Moved (cfgA s id) (cfgA s' id) := by
   obtain ⟨hk, h⟩ := stepG_some h
   cases e with
   | commit x adds fu fa =>
@@ -520,8 +947,13 @@ theorem cfgA_step {s s' : Sys} {e : Ev} (hb : Base s) (hb' : Base s.swap) (h : s
     · exact Or.inl (cfgA_sendRaa_true hb hk h id)
   | recv y =>
     cases y
-    · exact cfgA_recv_false hb' h id
-    · exact cfgA_recv_true hb h id
+    · exact cfgA_recv_false hb hb' h id
+    · exact cfgA_recv_true hb hb' h id
+  | disconnect => exact Or.inr ⟨mDisc, by simp [moves], cfgA_disconnect hb hb' h id hg⟩
+  | reest y =>
+    cases y
+    · exact Or.inl (cfgA_reest_false hb' h id)
+    · exact Or.inl (cfgA_reest_true hb h id)
 
 /-- the per-HTLC invariant: every id has a good configuration (for the HTLCs `a` offers) -/
 def GoodA (s : Sys) : Prop := ∀ id, good (cfgA s id) = true
@@ -533,77 +965,34 @@ theorem GoodA.init (va vb : Nat) : GoodA (Sys.init va vb) := by
 
 theorem GoodA.step {s s' : Sys} {e : Ev} (hg : GoodA s) (hb : Base s) (hb' : Base s.swap)
     (h : stepG s e = some s') : GoodA s' :=
-  fun id => good_of_moved (hg id) (cfgA_step hb hb' h id)
+  fun id => good_of_moved (hg id) (cfgA_step hb hb' h id (hg id))
 
 /-! ### the two revoke_and_ack receipts, precisely -/
 
-theorem cfgA_recv_true_raa {s s' : Sys} {rest : List Msg} (hb : Base s) (h : step s (.recv true) = some s')
-    (hq0 : s.qba = Msg.raa :: rest) (id : Nat) :
+theorem cfgA_recv_true_raa {s s' : Sys} {rest : List Msg} (hb : Base s) (hb' : Base s.swap)
+    (h : step s (.recv true) = some s') (hq0 : s.qba = Msg.raa :: rest) (id : Nat) :
     mRecvO (cfgA s id) = some (cfgA s' id) ∧ (cfgA s id).bwd.head? = some .raa := by
-  obtain ⟨m, rest', n, okb, hq, hm, e⟩ := step_recv_true h
+  obtain ⟨m, rest', hq, hc⟩ := cfgA_recv_true_precise hb hb' h id
   rw [hq0] at hq
-  injection hq with hq1 hq2
-  subst hq1; subst hq2
-  subst e
-  have hpop : s.fullBA = Msg.raa :: ({ s with a := n, qba := rest, agreed := s.agreed && okb } : Sys).fullBA := by
-    show full s.qba s.pendB s.needRaaB s.b.raaSent s.b.owesRaa = Msg.raa :: full rest s.pendB s.needRaaB s.b.raaSent s.b.owesRaa
-    rw [hq0, full_pop]
-  obtain ⟨e1, e2⟩ := onMsg_sent_owes hm
-  obtain ⟨hr, _⟩ := onMsg_raa hm
-  obtain ⟨haw, en⟩ := onRaa_some hr
-  have hbw : (cfgA s id).bwd = .raa :: List.filterMap (tokB id) ({ s with a := n, qba := rest, agreed := s.agreed && okb } : Sys).fullBA := by
-    show List.filterMap _ s.fullBA = _
-    rw [hpop]; rfl
-  have hfw : ({ s with a := n, qba := rest, agreed := s.agreed && okb } : Sys).fullAB = s.fullAB := by
-    show full s.qab s.pendA s.needRaaA n.raaSent n.owesRaa = _
-    rw [e1, e2]; rfl
-  refine ⟨?_, by rw [hbw]; rfl⟩
-  unfold mRecvO
-  rw [hbw]
-  simp only [show (cfgA s id).awO = true from haw, if_true, Option.some.injEq]
-  refine Cfg.ext' ?_ rfl ?_ rfl ?_ rfl
-  · show _ = stOut n.outb id
-    rw [en]
-    show _ = stOut ((s.a.outb.filter raaKeepOut).map raaMapOut) id
-    rw [stOut_onRaa hb.ok.sOut]; rfl
-  · show _ = List.filterMap (tokF id) _
-    rw [hfw]; rfl
-  · show false = n.awaitingRaa
-    rw [en]
+  injection hq with e1 _
+  subst e1
+  rcases hc with ⟨ht, _⟩ | ⟨t, ht, hh, hc⟩
+  · cases ht
+  · have : t = .raa := by have : tokB id Msg.raa = some .raa := rfl; rw [this] at ht; injection ht with ht; exact ht.symm
+    subst this
+    exact ⟨hc, hh⟩
 
-theorem cfgA_recv_false_raa {s s' : Sys} {rest : List Msg} (hb : Base s.swap) (h : step s (.recv false) = some s')
-    (hq0 : s.qab = Msg.raa :: rest) (id : Nat) :
+theorem cfgA_recv_false_raa {s s' : Sys} {rest : List Msg} (hb : Base s) (hb' : Base s.swap)
+    (h : step s (.recv false) = some s') (hq0 : s.qab = Msg.raa :: rest) (id : Nat) :
     mRecvI (cfgA s id) = some (cfgA s' id) ∧ (cfgA s id).fwd.head? = some .raa := by
-  obtain ⟨m, rest', n, okb, hq, hm, e⟩ := step_recv_false h
+  obtain ⟨m, rest', hq, hc⟩ := cfgA_recv_false_precise hb hb' h id
   rw [hq0] at hq
-  injection hq with hq1 hq2
-  subst hq1; subst hq2
-  subst e
-  have hpop : s.fullAB = Msg.raa :: ({ s with b := n, qab := rest, agreed := s.agreed && okb } : Sys).fullAB := by
-    show full s.qab s.pendA s.needRaaA s.a.raaSent s.a.owesRaa = Msg.raa :: full rest s.pendA s.needRaaA s.a.raaSent s.a.owesRaa
-    rw [hq0, full_pop]
-  obtain ⟨e1, e2⟩ := onMsg_sent_owes hm
-  have hok : NodeOK s.b := hb.ok
-  obtain ⟨hr, _⟩ := onMsg_raa hm
-  obtain ⟨haw, en⟩ := onRaa_some hr
-  have hfw : (cfgA s id).fwd = .raa :: List.filterMap (tokF id) ({ s with b := n, qab := rest, agreed := s.agreed && okb } : Sys).fullAB := by
-    show List.filterMap _ s.fullAB = _
-    rw [hpop]; rfl
-  have hbw : ({ s with b := n, qab := rest, agreed := s.agreed && okb } : Sys).fullBA = s.fullBA := by
-    show full s.qba s.pendB s.needRaaB n.raaSent n.owesRaa = _
-    rw [e1, e2]; rfl
-  refine ⟨?_, by rw [hfw]; rfl⟩
-  unfold mRecvI
-  rw [hfw]
-  simp only [show (cfgA s id).awI = true from haw, if_true, Option.some.injEq]
-  refine Cfg.ext' rfl ?_ rfl ?_ rfl ?_
-  · show _ = stIn n.inb id
-    rw [en]
-    show _ = stIn ((s.b.inb.filter raaKeepIn).map raaMapIn) id
-    rw [stIn_onRaa hok.sIn]; rfl
-  · show _ = List.filterMap (tokB id) _
-    rw [hbw]; rfl
-  · show false = n.awaitingRaa
-    rw [en]
+  injection hq with e1 _
+  subst e1
+  rcases hc with ⟨ht, _⟩ | ⟨t, ht, hh, hc⟩
+  · cases ht
+  · have : t = .raa := by have : tokF id Msg.raa = some .raa := rfl; rw [this] at ht; injection ht with ht; exact ht.symm
+    subst this
+    exact ⟨hc, hh⟩
 
 end Ldk.Chan
